@@ -504,4 +504,40 @@ def lightLabelsGo (showLabel assignInactive : Bool) : Option String → List Lig
 
 def lightLabelsC (showLabel : Bool) (ls : List LightInfo) : Res (List String) := lightLabelsGo showLabel true none ls
 
+/-! ### frame by frame on one renderer (mp_renderer.py clear 220-238, render 301-329)
+
+`draw_*` append to the renderer's buffers, `render(keep_static_artists)` shows the buffers and ends with
+`clear(keep_static_artists)`: the obstacle patches and labels are always dropped, the static artists (lanelet network,
+planning-problem annotations) are kept iff `keep_static_artists`.  A frame = some draws followed by one render. -/
+
+structure Buffers where
+  /-- `obstacle_patches` (per drawn obstacle) -/
+  patches : List (List Item)
+  /-- number of lanelet-network drawings held in `static_collections` -/
+  networks : Nat
+  deriving Repr, DecidableEq
+
+structure Frame where
+  flags : Flags
+  obstacles : List Obst
+  /-- the frame draws the lanelet network (`draw_scenario`) or only the obstacles (`draw_list(scenario.obstacles)`) -/
+  drawNetwork : Bool
+  /-- `render(keep_static_artists=…)` -/
+  keepStatic : Bool
+  deriving Repr
+
+/-- the draws of a frame -/
+def Frame.draw (fr : Frame) (b : Buffers) : Buffers :=
+  { patches := b.patches ++ drawScenario fr.flags fr.obstacles,
+    networks := b.networks + (if fr.drawNetwork then 1 else 0) }
+
+/-- `clear(keep_static_artists)` at the end of `render` -/
+def clearBuffers (keep : Bool) (b : Buffers) : Buffers :=
+  { patches := [], networks := if keep then b.networks else 0 }
+
+/-- What each frame of a history shows (buffers at its render), starting from buffers `b`. -/
+def showFrames : Buffers → List Frame → List Buffers
+  | _, [] => []
+  | b, fr :: rest => fr.draw b :: showFrames (clearBuffers fr.keepStatic (fr.draw b)) rest
+
 end CR.Draw
